@@ -81,13 +81,35 @@ struct Prog {
     impls: Vec<ImplDef>,
 }
 
+/// ADTs also carry non-type parameters in front of their type parameters, as a function of the
+/// ADT's index: (a lifetime `'a`?, a constant `const N`?).  They do not occur in field types; what
+/// they exercise is the numbering of parameters (`struct A1<'a, P0> { f0: P0 }`: `P0` is parameter
+/// number 1 of the ADT but its first TYPE parameter).
+fn lead_of(i: usize) -> (bool, bool) {
+    match i % 4 {
+        1 => (true, false),
+        2 => (false, true),
+        3 => (true, true),
+        _ => (false, false),
+    }
+}
+
 fn ty_text(t: &T) -> String {
     match t {
         T::Adt(i, args) => {
-            if args.is_empty() {
+            let (lt, ct) = lead_of(*i);
+            let mut a: Vec<String> = vec![];
+            if lt {
+                a.push("'static".into());
+            }
+            if ct {
+                a.push("3".into());
+            }
+            a.extend(args.iter().map(ty_text));
+            if a.is_empty() {
                 format!("A{}", i)
             } else {
-                format!("A{}<{}>", i, args.iter().map(ty_text).collect::<Vec<_>>().join(", "))
+                format!("A{}<{}>", i, a.join(", "))
             }
         }
         T::Scalar(i) => SCALARS[*i % SCALARS.len()].to_string(),
@@ -106,6 +128,24 @@ fn ty_text(t: &T) -> String {
         T::Dyn => "dyn Obj + 'static".into(),
         T::FnDef => "fd0".into(),
         T::Param(i) => format!("P{}", i),
+    }
+}
+
+/// declaration of an ADT's parameters: lead parameters, then `P0 ..`
+fn adt_params_text(i: usize, n: usize) -> String {
+    let (lt, ct) = lead_of(i);
+    let mut a: Vec<String> = vec![];
+    if lt {
+        a.push("'a".into());
+    }
+    if ct {
+        a.push("const N".into());
+    }
+    a.extend((0..n).map(|k| format!("P{}", k)));
+    if a.is_empty() {
+        String::new()
+    } else {
+        format!("<{}>", a.join(", "))
     }
 }
 
@@ -138,13 +178,13 @@ impl Prog {
                         }
                     })
                     .collect();
-                s.push_str(&format!("enum A{}{} {{ {} }} ", i, params_text(a.nparams), vs.join(", ")));
+                s.push_str(&format!("enum A{}{} {{ {} }} ", i, adt_params_text(i, a.nparams), vs.join(", ")));
             } else {
                 let fs = &a.variants[0];
                 s.push_str(&format!(
                     "struct A{}{} {{ {} }} ",
                     i,
-                    params_text(a.nparams),
+                    adt_params_text(i, a.nparams),
                     fs.iter().enumerate().map(|(j, t)| format!("f{}: {}", j, ty_text(t))).collect::<Vec<_>>().join(", ")
                 ));
             }
@@ -335,6 +375,23 @@ fn ctor_name(t: &T) -> &'static str {
 
 struct Enc {
     ctors: BTreeMap<String, Sexp>,
+    /// for the item being encoded: binder index -> rank among the item's TYPE parameters (the terms
+    /// carry type arguments only)
+    ty_rank: Vec<usize>,
+}
+
+fn ty_ranks(kinds: &VariableKinds<ChalkIr>) -> Vec<usize> {
+    let mut n = 0;
+    kinds
+        .iter(I)
+        .map(|k| {
+            let r = n;
+            if matches!(k, VariableKind::Ty(_)) {
+                n += 1;
+            }
+            r
+        })
+        .collect()
 }
 
 impl Enc {
@@ -397,7 +454,7 @@ impl Enc {
                 let args = self.subst(s, depth)?;
                 self.app(format!("fndef{}", id.0.index), atom("fndef"), args)
             }
-            TyKind::BoundVar(bv) if bv.debruijn.depth() == depth => tagged("var", vec![nat(bv.index)]),
+            TyKind::BoundVar(bv) if bv.debruijn.depth() == depth => tagged("var", vec![nat(self.ty_rank.get(bv.index).copied().unwrap_or(bv.index))]),
             _ => return None,
         })
     }
@@ -419,6 +476,7 @@ fn enc_program(p: &Program, enc: &mut Enc) -> Option<(Sexp, Sexp)> {
     let mut adts = vec![];
     for (id, d) in &p.adt_data {
         let b = d.binders.skip_binders();
+        enc.ty_rank = ty_ranks(&d.binders.binders);
         let mut vs = vec![];
         for v in &b.variants {
             let mut fs = vec![];
@@ -440,6 +498,7 @@ fn enc_program(p: &Program, enc: &mut Enc) -> Option<(Sexp, Sexp)> {
             return None;
         }
         let b = d.binders.skip_binders();
+        enc.ty_rank = ty_ranks(&d.binders.binders);
         let tr = trait_wire(p, b.trait_ref.trait_id)?;
         let self_ty = enc.ty(&b.trait_ref.self_type_parameter(I), 0)?;
         let mut wcs = vec![];
@@ -598,7 +657,7 @@ fn one_program(ctx: &Ctx, prog: Option<&Prog>, text: &str, goals: &[(usize, Opti
             return;
         }
     };
-    let mut enc = Enc { ctors: BTreeMap::new() };
+    let mut enc = Enc { ctors: BTreeMap::new(), ty_rank: vec![] };
     let (adts, impls) = match enc_program(&program, &mut enc) {
         Some(x) => x,
         None => {
